@@ -1,10 +1,16 @@
 import CamVerif.Model.RegMap
+import CamVerif.Proofs.C13Struct
 import Driver.Util
 /-!
 Driver for C13.  Stateful: `c13 img <seed> <segs>` installs the device image (background
 noise function shared with the harness + patches, later patches win); the following
 `acc` / `rt` requests run one accessor (or a setter followed by its getter) of the model
 on a fresh device over that image and print `value | access log`.
+
+`accg` requests are stateless: they run the accessor OVER AN ARBITRARY DEVICE (`runNamedG`,
+`Proofs/C13Struct.lean`; uniform rows through `RRow.runG`) on the scripted stateful device
+`scriptDev` — history-dependent contents, periodic failures with varying error values, short
+reads — which the harness implements as a second `DeviceControl` for the real accessors.
 -/
 namespace Driver.C13
 open CamVerif CamVerif.RegMap CamVerif.Wire Driver
@@ -47,7 +53,7 @@ def errName : Err → String
 def bit01 (b : Bool) : String := if b then "1" else "0"
 
 def capBits (st : String) (preds : List String) (raw : Nat) : Option String :=
-  (preds.mapM fun p => (capBit st p).map fun bit => bit01 (isBitSet raw bit)).map String.join
+  (preds.mapM fun p => (bitTest st p raw).map bit01).map String.join
 
 def showEnumRes : R String → String
   | .ok v => v
@@ -65,9 +71,11 @@ def showVal : Val → Option String
   | .none => some "none"
   | .some v => (showVal v).map ("some " ++ ·)
   | .hash bs => some s!"h:{bytesToHex bs}"
-  | .fileInfo raw => fileInfoLayout.map fun L =>
-      let (ma, mi) := L.schemaOf raw
-      s!"fi:{showEnumRes (L.fileTypeOf raw)}:{showEnumRes (L.compressionOf raw)}:v:{ma}.{mi}.0"
+  | .fileInfo raw => do
+      let ft ← fileTypeOf raw
+      let ct ← compressionOf raw
+      let (ma, mi) ← schemaOf raw
+      pure s!"fi:{showEnumRes ft}:{showEnumRes ct}:v:{ma}.{mi}.0"
   | .cfg raw => (capBits "DeviceConfiguration" ["is_multi_event_enabled"] raw).map fun b => s!"cfg:{raw}:{b}"
   | .dcap raw =>
     (capBits "DeviceCapability" ["is_user_defined_name_supported", "is_family_name_supported",
@@ -100,6 +108,41 @@ def showAccess (a : Access) : String :=
 def showLog (l : List Access) : String :=
   if l.isEmpty then "-" else ",".intercalate (l.map showAccess)
 
+/-! ### The scripted device of the `accg` requests (mirror of `ScriptDev` in c13.rs) -/
+
+structure SSt where
+  /-- number of calls made so far -/
+  n : Nat
+  log : List Access
+
+def scriptErr (i : Nat) : String :=
+  if i == 0 then "Busy" else if i == 1 then "Timeout" else "Disconnected"
+
+/-- call number `n` fails iff `k > 0` and `k ∣ n`; the error value varies with `n / k`.
+A successful read delivers `min len short` bytes (the rest of the caller's buffer is left
+alone), byte `i` = `noise (seed ^ n) (addr + i) & mask`: contents depend on the history. -/
+def scriptDev (seed : UInt64) (k short mask : Nat) : ADev SSt String where
+  read st addr len :=
+    let n := st.n + 1
+    if k > 0 && n % k == 0 then
+      (.error (scriptErr (n / k % 3)), ⟨n, st.log ++ [⟨.R, addr, len, none⟩]⟩)
+    else
+      let bs := (List.range (min len short)).map fun i =>
+        noise (seed ^^^ UInt64.ofNat n) (addr + i) &&& UInt8.ofNat mask
+      (.ok bs, ⟨n, st.log ++ [⟨.R, addr, len, some bs⟩]⟩)
+  write st addr data :=
+    let n := st.n + 1
+    if k > 0 && n % k == 0 then
+      (.error (scriptErr (n / k % 3)), ⟨n, st.log ++ [⟨.W, addr, data.length, none⟩]⟩)
+    else (.ok (), ⟨n, st.log ++ [⟨.W, addr, data.length, some data⟩]⟩)
+
+def showResG : Res (GErr String) Val → Option String
+  | .ok v => (showVal v).map ("ok " ++ ·)
+  | .err .invalidDevice => some "err InvalidDevice"
+  | .err .invalidData => some "err InvalidData"
+  | .err (.dev e) => some ("err " ++ e)
+  | .panic => some "panic"
+
 def parseArg (s : String) : Option Arg :=
   if s == "-" then some .none
   else if s.startsWith "n:" then (s.drop 2).toNat?.map .nat
@@ -130,6 +173,17 @@ def handle (img : Image) : List String → String
         | none => "bad-op"
       | none => "bad-op"
     | _, _, _ => "bad-op"
+  | ["accg", name, base, cap, arg, seed, k, short, mask, n0] =>
+    match base.toNat?, cap.toNat?, parseArg arg, seed.toNat?, k.toNat?, short.toNat?, mask.toNat?, n0.toNat? with
+    | some base, some cap, some arg, some seed, some k, some short, some mask, some n0 =>
+      match runNamedG (scriptDev (UInt64.ofNat seed) k short mask) name base cap arg ⟨n0, []⟩ with
+      | some (r, st) =>
+        match showResG r with
+        | some "panic" => "panic"
+        | some s => s!"{s} | {showLog st.log} | {st.n}"
+        | none => "bad-op"
+      | none => "bad-op"
+    | _, _, _, _, _, _, _, _ => "bad-op"
   | ["rt", setter, getter, base, cap, arg] =>
     match base.toNat?, cap.toNat?, parseArg arg with
     | some base, some cap, some arg =>
